@@ -141,6 +141,12 @@ SCopyMeta ==
     /\ pc' = IF Present(fs, "sbin") THEN "return"                 \* an existing scratch file is re-used
              ELSE IF Present(fs, "stmp") THEN "rmtmp" ELSE "open"
     /\ UNCHANGED <<op, keep, k, result, srcAtStart, pubAtStart>>
+SNoCopy ==    \* scratch_dir=None (the default): the copy is made next to the compressed file, whose metadata file serves
+              \* both forms (scratch directory = directory of the recording: smeta is the recording's own .meta); no copy
+    /\ op = "scratch" /\ pc = "copymeta" /\ fs["smeta"] = "C"
+    /\ pc' = IF Present(fs, "sbin") THEN "return"
+             ELSE IF Present(fs, "stmp") THEN "rmtmp" ELSE "open"
+    /\ UNCHANGED <<fs, op, keep, k, result, srcAtStart, pubAtStart>>
 SRmTmp ==     \* overwrite=True: a leftover temporary is removed first
     /\ op = "scratch" /\ pc = "rmtmp"
     /\ fs' = Set(fs, "stmp", "A") /\ pc' = "open" /\ UNCHANGED <<op, keep, k, result, srcAtStart, pubAtStart>>
@@ -169,7 +175,7 @@ Fail ==
 
 Step == COpen \/ CChunk \/ CHeaderOpen \/ CHeader \/ CCheck \/ CRename \/ CUnlink
         \/ DRefuse \/ DOpen \/ DChunk \/ DCheck \/ DUnlink1 \/ DUnlink2
-        \/ SCopyMeta \/ SRmTmp \/ SOpen \/ SChunk \/ SMove \/ Return
+        \/ SCopyMeta \/ SNoCopy \/ SRmTmp \/ SOpen \/ SChunk \/ SMove \/ Return
 Next == (\E kp \in BOOLEAN : CStart(kp) \/ DStart(kp)) \/ SStart \/ Step \/ Fail
 Spec == Init /\ [][Next]_vars
 
